@@ -97,3 +97,14 @@ func WrapLoop(start, end uint32, m map[uint32]bool) {
 func NarrowAverage(left, up byte) byte {
 	return (left + up) / 2
 }
+
+var sharedTable = map[string]map[rune]float64{"x": {'a': 1}}
+
+type holder struct{ widths map[rune]float64 }
+
+// AliasesGlobalTable violates R3.4 GLOBAL-TABLE-ALIAS.
+func AliasesGlobalTable(h *holder, name string) {
+	if w, ok := sharedTable[name]; ok {
+		h.widths = w
+	}
+}
